@@ -10,6 +10,7 @@ import (
 	"strconv"
 	"strings"
 	"sync"
+	"sync/atomic"
 	"time"
 
 	"go.miragespace.co/specter/spec/protocol"
@@ -128,76 +129,87 @@ func signStamp(priv ed25519.PrivateKey, str string) *protocol.ProofOfWork {
 	}
 }
 
-// canonicalUint parses a decimal without sign / leading zeros.
-func canonicalUint(s string) (int64, bool) {
+// canonicalUint reports whether s is a decimal without sign / leading zeros.
+func canonicalUint(s string) bool {
 	if s == "" || (len(s) > 1 && s[0] == '0') {
-		return 0, false
+		return false
 	}
 	for _, c := range s {
 		if c < '0' || c > '9' {
-			return 0, false
+			return false
 		}
 	}
-	v, err := strconv.ParseInt(s, 10, 64)
-	if err != nil {
-		return 0, false
-	}
-	return v, true
+	return true
 }
 
-// refPowAccept is the acceptance condition of the statement:
+// refPowVerdict is the acceptance condition of the statement:
 //
 //	signed by the presented ed25519 key, uses the required difficulty, has not expired and
 //	expires within the allowed window, names the expected subject, and its stamp hash starts
 //	with at least that many zero bits.
 //
-// "its stamp hash" is the SHA-256 of the presented stamp text. The stamp format (H, decimal
+// "its stamp hash" is the SHA-256 of the presented stamp text. The stamp layout (H, decimal
 // difficulty, decimal unix expiry, subject, nonce, "SHA-256", optional solution) is taken from
-// util/hashcash; a text that is not a well-formed canonical stamp is not a proof. "Expired"
-// means now is past the expiry instant (doc of ErrExpired); the allowed window is 2*Expires
-// ahead of now (the bound used by spec/pow, see assumptions).
-func refPowAccept(p *protocol.ProofOfWork, required int, expires time.Duration, subjectOf func(ed25519.PublicKey) string, now time.Time) (bool, string) {
+// util/hashcash. "Expired" means now is past the expiry instant (doc of ErrExpired); the
+// allowed window is 2*Expires ahead of now (the bound used by spec/pow, see assumptions).
+//
+// Verdicts: "accept" / "reject" are required by the statement. "either" is returned when every
+// stated condition holds for the presented text but the text is not in the form the stamp
+// writer produces (signed or zero-padded numbers, empty solution segment): the statement does
+// not say whether such spellings are proofs, so strictness about them is not judged. The
+// numeric value of such a field is read with strconv (as any decimal reader would).
+func refPowVerdict(p *protocol.ProofOfWork, required int, expires time.Duration, subjectOf func(ed25519.PublicKey) string, now time.Time) (string, string) {
 	if p == nil {
-		return false, "no-proof"
+		return "reject", "no-proof"
 	}
 	if len(p.GetPubKey()) != ed25519.PublicKeySize || len(p.GetSignature()) != ed25519.SignatureSize {
-		return false, "key-or-signature-size"
+		return "reject", "key-or-signature-size"
 	}
 	if !ed25519.Verify(ed25519.PublicKey(p.GetPubKey()), []byte(p.GetSolution()), p.GetSignature()) {
-		return false, "signature"
+		return "reject", "signature"
 	}
 	parts := strings.Split(p.GetSolution(), ":")
 	if len(parts) < 6 || len(parts) > 7 {
-		return false, "format-fields"
+		return "reject", "format-fields"
 	}
 	if parts[0] != "H" || parts[5] != "SHA-256" {
-		return false, "format-tag-alg"
+		return "reject", "format-tag-alg"
 	}
-	d, ok := canonicalUint(parts[1])
-	if !ok {
-		return false, "format-difficulty"
+	canonical := canonicalUint(parts[1]) && canonicalUint(parts[2]) && !(len(parts) == 7 && parts[6] == "")
+	d, err := strconv.Atoi(parts[1])
+	if err != nil || d < 0 {
+		return "reject", "format-difficulty"
 	}
-	if int(d) != required {
-		return false, "difficulty"
+	if d != required {
+		return "reject", "difficulty"
 	}
-	e, ok := canonicalUint(parts[2])
-	if !ok {
-		return false, "format-expiry"
+	e, err := strconv.ParseInt(parts[2], 10, 64)
+	if err != nil || e < 0 {
+		return "reject", "format-expiry"
 	}
 	exp := time.Unix(e, 0)
 	if now.After(exp) {
-		return false, "expired"
+		return "reject", "expired"
 	}
 	if exp.Sub(now) > 2*expires {
-		return false, "window"
+		return "reject", "window"
 	}
 	if parts[3] != subjectOf(ed25519.PublicKey(p.GetPubKey())) {
-		return false, "subject"
+		return "reject", "subject"
 	}
 	if stampLZ(p.GetSolution()) < required {
-		return false, "zero-bits"
+		return "reject", "zero-bits"
 	}
-	return true, "ok"
+	if !canonical {
+		return "either", "unusual-spelling-with-enough-work"
+	}
+	return "accept", "ok"
+}
+
+// refPowAccept: the statement requires acceptance.
+func refPowAccept(p *protocol.ProofOfWork, required int, expires time.Duration, subjectOf func(ed25519.PublicKey) string, now time.Time) (bool, string) {
+	v, why := refPowVerdict(p, required, expires, subjectOf, now)
+	return v == "accept", why
 }
 
 func errClass(err error) string {
@@ -308,4 +320,22 @@ func guardedParallel(n int, budget time.Duration, onHang func(i int), work func(
 			outs[i]()
 		}
 	}
+}
+
+// panicError marks a handler panic: it is treated as a refusal (nothing was returned to the
+// caller) and counted, so that one crashing input does not hide the verdicts of the others.
+type panicError struct{ v any }
+
+func (p panicError) Error() string { return fmt.Sprintf("handler panicked: %v", p.v) }
+
+var handlerPanics atomic.Int64
+
+func safely(f func() error) (err error) {
+	defer func() {
+		if r := recover(); r != nil {
+			handlerPanics.Add(1)
+			err = panicError{r}
+		}
+	}()
+	return f()
 }
